@@ -35,7 +35,7 @@ def spec (req : Json) : Except String Json := do
   | none => pure (Json.mkObj [("holds", kind == "diags"), ("note", "syntax")])
   | some prog =>
     let pre := builtins ++ extRegistry fs
-    let dups := duplicateSites pre prog
+    let dups := allDuplicateSites builtins fs prog
     if !dups.isEmpty then
       let ok := kind == "raised" && (match decodeImplDiag impl with
         | .ok d => d.cls == "TypeResolvingException" && dups.any (fun (f, p) => f == d.file && p == d.pos)
